@@ -8,7 +8,7 @@
 //
 // Line protocol (stateful; one history = ops between two `reset` lines):
 //
-//	reset <lockup> <minDeposit> <minFee> <retVotesFee> <minLock> <maxLock> <illegalPenalty>
+//	reset <lockup> <minDeposit> <minFee> <retVotesFee> <minLock> <maxLock> <illegalPenalty> [<crVotingPeriod> <crMemberCount>]
 //	begin <height>
 //	reg <o> <amount> <lock> <v2>          environment: RegisterProducer processed (its own check is not run)
 //	dep <o> <v>                           environment: TransferAsset paying the deposit address of o
@@ -19,7 +19,9 @@
 //	vote <k> <lock> <v,v,..> <bad>        bad = index of the first candidate that is not an active v2 producer, or n (oracle value);
 //	                                      Voting (DPoS v2 content), real context check; candidates = v2 producers 0..n-1
 //	retv <k> <v>                          ReturnVotes, real context check
+//	renew <k> <referKey> <oldLock> <amount> <born> <newLock>   Voting (renewal content) of one detailed vote, real check
 //	crreg <c> <amount> / crdep <c> <v>    environment: RegisterCR / payment to the candidate's deposit address
+//	crvote <c> <v>                        environment: CRC vote output for candidate c
 //	crcancel <c>                          UnregisterCR, real context check
 //	crret <c> <inp> <tinp> <change> <out> <utxos>   ReturnCRDepositCoin, real context check
 //	end                                   State.ProcessBlock + Committee.ProcessBlock; prints every account, stake, CR deposit
@@ -139,6 +141,12 @@ func newWorld(t []string) *world {
 	p.CRConfiguration.ChangeCommitteeNewCRHeight = 0
 	p.CRConfiguration.CRVotingStartHeight = 0
 	p.CRConfiguration.CRCommitteeStartHeight = 100000000 // the whole run is the first CR voting period
+	if len(t) >= 10 { // end of the CR voting period (tryEndVoting) at LastVotingStartHeight + VotingPeriod, MemberCount seats
+		p.CRConfiguration.VotingPeriod = uint32(i64(t[8]))
+		p.CRConfiguration.MemberCount = uint32(i64(t[9]))
+	} else {
+		p.CRConfiguration.VotingPeriod = 100000000
+	}
 	p.DPoSV2StartHeight = 0
 	p.VoteStatisticsHeight = 0
 	p.EnableActivateIllegalHeight = 0
@@ -234,6 +242,11 @@ func errClass(e error) string {
 		{"DPoSV2 vote rights not enough", "notenough"},
 		{"invalid vote output payload", "cand"},
 		{"invalid return votes value", "small"},
+		{"not found in producer", "novote"},
+		{"votes not equal", "novote"},
+		{"new lock time <= old lock time", "lock"},
+		{"new lock time > producer StakeUntil", "lock"},
+		{"invalid lock time > DPoSV2MaxVotesLockTime", "lock"},
 		{"vote rights not enough", "notenough"},
 		{"can not cancel", "state"},
 		{"getting unknown producer", "noprod"},
@@ -299,7 +312,15 @@ func (w *world) dump() string {
 		if !ok && u == 0 {
 			continue
 		}
-		fmt.Fprintf(&b, " %d:%d:%d", o, int64(r), int64(u))
+		var locked common.Fixed64
+		for _, p := range w.st.GetDposV2Producers() {
+			for _, dvi := range p.GetAllDetailedDPoSV2Votes()[a] {
+				for _, i := range dvi.Info {
+					locked += i.Votes
+				}
+			}
+		}
+		fmt.Fprintf(&b, " %d:%d:%d:%d", o, int64(r), int64(u), int64(locked))
 	}
 	b.WriteString(" R")
 	ids = ids[:0]
@@ -501,6 +522,19 @@ func exec(t []string) string {
 		w.pending = append(w.pending, tx)
 		w.utxos = append(w.utxos, &utxo{owner: 1000 + o, value: amount, op: ctypes.NewOutPoint(tx.Hash(), 0), born: w.height})
 		return "queued"
+	case "crvote": // CRC vote output (old style vote tx); only for candidates present before the block
+		o := int(i64(t[1]))
+		k := w.cr(o)
+		if w.cm.GetCandidate(crCID(k)) == nil {
+			panic("harness: crvote for a cid that is not a candidate (the node dereferences nil at commit)")
+		}
+		cid := crCID(k)
+		out := &ctypes.Output{Value: common.Fixed64(i64(t[2])), Type: ctypes.OTVote, ProgramHash: standardHash(k),
+			Payload: &outputpayload.VoteOutput{Version: outputpayload.VoteProducerAndCRVersion, Contents: []outputpayload.VoteContent{
+				{VoteType: outputpayload.CRC, CandidateVotes: []outputpayload.CandidateVotes{{Candidate: cid.Bytes(), Votes: common.Fixed64(i64(t[2]))}}}}}}
+		tx := functions.CreateTransaction(ctypes.TxVersion09, ctypes.TransferAsset, 0, &payload.TransferAsset{}, w.attrs(), nil, []*ctypes.Output{out}, 0, nil)
+		w.pending = append(w.pending, tx)
+		return "queued"
 	case "crdep":
 		o := int(i64(t[1]))
 		k := w.cr(o)
@@ -609,6 +643,45 @@ func exec(t []string) string {
 		}
 		pl := &payload.Voting{Contents: []payload.VotesContent{{VoteType: outputpayload.DposV2, VotesInfo: vi}}}
 		tx := w.mk(ctypes.Voting, payload.VoteVersion, pl, nil, nil, []*program.Program{{Code: k.code, Parameter: []byte{0}}})
+		v := verdict(tx)
+		if v == "accept" {
+			w.pending = append(w.pending, tx)
+			if os.Getenv("HX_DEBUG") != "" { // refer keys of the detailed votes this tx will create (for writing corpus files)
+				for _, x := range vi {
+					dvi := payload.DetailedVoteInfo{StakeProgramHash: stakeAddr(k), TransactionHash: tx.Hash(), BlockHeight: w.height,
+						PayloadVersion: tx.PayloadVersion(), VoteType: outputpayload.DposV2, Info: []payload.VotesWithLockTime{x}}
+					rk := dvi.ReferKey()
+					fmt.Fprintln(os.Stderr, "refer key:", rk.String())
+				}
+			}
+		}
+		return v
+	case "renew": // renew <k> <referKey> <oldLock> <amount> <born> <newLock>
+		o := int(i64(t[1]))
+		k := w.stake(o)
+		rk, err := common.Uint256FromHexString(t[2])
+		if err != nil {
+			panic("harness: bad refer key")
+		}
+		cand := []byte(nil)
+		sa := stakeAddr(k)
+		for _, p := range w.st.GetDposV2Producers() {
+			if dvi, ok := p.GetAllDetailedDPoSV2Votes()[sa][*rk]; ok {
+				if int64(dvi.Info[0].LockTime) != i64(t[3]) || int64(dvi.Info[0].Votes) != i64(t[4]) || int64(dvi.BlockHeight) != i64(t[5]) {
+					return "vote-mismatch"
+				}
+				cand = p.OwnerPublicKey()
+			}
+		}
+		if cand == nil { // stale key: the real check has to refuse it
+			if len(w.v2s) == 0 {
+				panic("harness: renew without v2 producer")
+			}
+			cand = w.owner(w.v2s[0]).pk
+		}
+		pl := &payload.Voting{RenewalContents: []payload.RenewalVotesContent{{ReferKey: *rk,
+			VotesInfo: payload.VotesWithLockTime{Candidate: cand, Votes: common.Fixed64(i64(t[4])), LockTime: uint32(i64(t[6]))}}}}
+		tx := w.mk(ctypes.Voting, payload.RenewalVoteVersion, pl, nil, nil, []*program.Program{{Code: k.code, Parameter: []byte{0}}})
 		v := verdict(tx)
 		if v == "accept" {
 			w.pending = append(w.pending, tx)
